@@ -395,6 +395,8 @@ Definition spec_ok (c : tcase) : bool :=
   (if has_spec c 10 then spec_inputs_untouched (t_pre c) (t_post c) else true) &&
   (* C18: nothing outside the project, the cache and the config directory changed *)
   (if has_spec c 20 then negb (has_obs c 1) else true) &&
+  (* C13: the command terminated (the watchdog did not have to kill it) *)
+  (if has_spec c 24 then negb (has_obs c 3) else true) &&
   (* C07: root tree physically unchanged *)
   (if has_spec c 21 then node_eqb (w_root (t_pre c)) (w_root (t_post c)) else true) &&
   (* C08: the execution log written by the stage commands themselves is valid *)
